@@ -5,6 +5,16 @@ ROOT = os.path.dirname(os.path.dirname(os.path.abspath(__file__)))
 
 # id -> (engine, category, technique, level text, level note, design_ref)
 CHECKS = {
+ "C15": ("servlab", "exploration",
+   "runtime monitor on regenerated servers: counting ResponseWriter, recording ErrorHandler/NotFound/MethodNotAllowed callbacks and handler, recover around ServeHTTP; byte-level mutation of requests captured from the generated client",
+   "For every operation of the regenerated corpus packages valid requests are captured in wire form from the generated client and then mutated systematically (methods, request-target/query corruption, header drop/duplicate/corrupt/empty, wrong and parameterised content types, Content-Length lies, body truncated at every prefix <= 64, trailing bytes, duplicate/dropped/null/unknown JSON members, 10^4-deep nesting, replaced bodies, multipart boundary faults), with PRNG byte mutants, hand-built *http.Request values that bypass URL validation, and a handler scripted to fail. Oracle: no panic, at most one WriteHeader, exactly one terminal stage, the stage->status table (404/405/401/400/415/500) with the handler never invoked on a refusal, and no handler call on a JSON body that is not one well-formed JSON text.",
+   "Mutants that net/http itself cannot parse are tallied and not sent. Bodies with ill-formed UTF-8 inside strings or duplicate member names that reach the handler are tallied, not judged. Schema-level over-acceptance is C03's subject.",
+   "DESIGN.md §2 C15"),
+ "C19": ("servlab", "exploration",
+   "Go race detector on a race-instrumented driver linking freshly generated client+server; isolation oracle (concurrent outcome == sequential outcome per call, unique ids in every value); porcupine linearizability check of recorded key/value histories",
+   "A driver built with -race runs, for ogen's sample/parameters/requests specs (request and response validation on, RE2 and regexp2 patterns) and a key/value spec, a fixed list of calls (valid, hostile, validation-failing; every operation) first sequentially and then concurrently in PRNG order from 32-64 goroutines over an in-process wire transport and a real loopback connection pool, with GOMAXPROCS 2 and 16 and PRNG-determined delays in the handler. Each call's concurrent outcome must equal its sequential one; GORACE logs are split into report blocks and any block is a violation; key/value histories (unique written values) are checked per key with porcupine against a register model.",
+   "Interleavings are those the scheduler produced; the evidence reports handler invocations in flight (a run without concurrency is inconclusive). A porcupine timeout is inconclusive.",
+   "DESIGN.md §2 C19"),
  "C03": ("servlab", "exploration",
    "runtime monitor on regenerated servers: every posted instance decided by two independent schema oracles (reference validator written for the harness + python jsonschema Draft 4), handler-invoked flag and status observed",
    "Random schemas of the supported keyword fragment (type, properties/required incl. undeclared names, additionalProperties false/true/schema, items, enum, nullable, numeric bounds with boolean exclusives, multipleOf, string length and portable patterns, item and property counts, uniqueItems, allOf, oneOf/anyOf disjoint by construction with and without discriminator, $ref, recursive lists/trees/sums; wide objects crossing the required-bitmask byte boundaries) are served by servers generated from the current tree; per schema: schema-directed valid instances, every single-keyword boundary mutant of them (62 kinds) and random JSON. Oracle: handler invoked with 2xx iff both references call the instance valid, otherwise 400 and no handler call. Triples on which the references disagree are dropped and counted as inconclusive.",
